@@ -111,6 +111,40 @@ Qed.
 
 (* ---------- rescale_x ---------- *)
 Definition col_mu (X : dm R) (j : nat) : R := rsum (nrows X) (fun i => get X i j) / INR (nrows X).
+(* the test of rescale_x before the exactly-constant clause was added (|sd| < eps only): over the
+   reals the new test rejects at least what the old one did, so whatever the model accepts / the old
+   view rejects carries over; the converse (a constant column has deviation 0 < eps) is
+   `rescale_x_old_some` in ProofsRidgeTotal.v *)
+Definition rescale_x_old (eps : R) (X : dm R) : option (dm R * list R * list R) :=
+  if existsb (fun s => oltb ROps (oabs ROps (osub ROps s (o0 ROps))) eps) (D.std ROps X true) then None
+  else match D.scale ROps X (D.mean ROps X true) (D.std ROps X true) true with
+       | None => None
+       | Some Z => Some (Z, D.mean ROps X true, D.std ROps X true)
+       end.
+Lemma old_test_rejected eps (X : dm R) :
+  existsb (fun s => oltb ROps (oabs ROps (osub ROps s (o0 ROps))) eps) (D.std ROps X true) = true ->
+  existsb (col_rejected ROps eps X (D.std ROps X true)) (seq 0 (length (D.std ROps X true))) = true.
+Proof.
+  intros H. apply existsb_exists in H. destruct H as [s [Hin Hlt]].
+  destruct (In_nth _ _ 0 Hin) as [j [Hj Hs]].
+  apply existsb_exists. exists j. split; [apply in_seq; lia|].
+  unfold col_rejected. cbn [o0 ROps]. rewrite Hs. apply orb_true_iff. right.
+  cbn [oltb oleb oabs osub o0 ROps] in *. apply Rltb_true in Hlt.
+  apply negb_true_iff. apply Rleb_false. exact Hlt.
+Qed.
+Lemma rescale_x_some_old eps (X : dm R) r : rescale_x ROps eps X = Some r -> rescale_x_old eps X = Some r.
+Proof.
+  unfold rescale_x, rescale_x_old.
+  destruct (existsb (fun s => oltb ROps _ eps) (D.std ROps X true)) eqn:E.
+  - rewrite (old_test_rejected eps X E). discriminate.
+  - destruct (existsb (col_rejected ROps eps X _) _); [discriminate|]. intros H; exact H.
+Qed.
+Lemma rescale_x_old_none eps (X : dm R) : rescale_x_old eps X = None -> rescale_x ROps eps X = None.
+Proof.
+  intros H. destruct (rescale_x ROps eps X) as [r|] eqn:E; [|reflexivity].
+  apply rescale_x_some_old in E. congruence.
+Qed.
+
 Lemma rescale_x_spec eps (X Z : dm R) mu sd : 0 < eps -> wfR X ->
   rescale_x ROps eps X = Some (Z, mu, sd) ->
   mu = D.mean ROps X true /\ sd = D.std ROps X true /\
@@ -120,7 +154,7 @@ Lemma rescale_x_spec eps (X Z : dm R) mu sd : 0 < eps -> wfR X ->
   (forall j, (j < ncols X)%nat -> nth j sd 0 <> 0) /\
   (forall i j, (i < nrows X)%nat -> (j < ncols X)%nat -> get Z i j = (get X i j - nth j mu 0) / nth j sd 0).
 Proof.
-  intros Heps Hwf. unfold rescale_x.
+  intros Heps Hwf Hr0. apply rescale_x_some_old in Hr0. revert Hr0. unfold rescale_x_old.
   destruct (existsb _ (D.std ROps X true)) eqn:Hex; [discriminate|].
   destruct (ProofsRed.scale_spec X (D.mean ROps X true) (D.std ROps X true) true) as [Z' [HZ [Z1 [Z2 [Z3 Z4]]]]].
   { rewrite ProofsRed.mean_length. apply le_n. }
